@@ -86,6 +86,7 @@ class Engine:
         self.ufs_seen = {}
         self.uf_apps = []
         self.decided = {}
+        self.concretized = {}
         self.stats['paths'] += 1
         if self.stats['paths'] > self.max_paths:
             raise PathLimit()
@@ -159,6 +160,11 @@ class Engine:
         """enumerate the feasible values of a term by binary forks (complete up to `cap`).  The candidate value of each
         fork is recorded in the decision trace, so that a re-execution replays exactly the same candidates whatever
         model the solver happens to return (models are not stable across re-executions)."""
+        done = self.concretized.get(expr.get_id())
+        if done is not None:
+            # already fixed on this path: no decision is made now, so none may be read from the replayed prefix either
+            # (the next prefix entry belongs to some later decision)
+            return done[1]
         n = 0
         while True:
             i = len(self.trace)
@@ -180,9 +186,9 @@ class Engine:
             else:
                 v = z3.IntVal(raw)
             if self.decide(expr == v, note=raw):
-                if z3.is_bool(expr):
-                    return bool(raw)
-                return v
+                r = bool(raw) if z3.is_bool(expr) else v
+                self.concretized[expr.get_id()] = (expr, r)
+                return r
             n += 1
             if n > cap:
                 self.stats['inconclusive'] += 1
@@ -831,7 +837,7 @@ class SymBytes:
     def __getitem__(self, k):
         n = len(self)
         if isinstance(k, slice):
-            k = _cslice(k)
+            k = _cslice(k, n)
             if k.step in (None, 1):
                 a, b, _ = k.indices(n)
                 return mkbytes(self.bits.slice(8 * a, 8 * max(a, b)))
@@ -995,9 +1001,23 @@ class AsciiText:
         return '<symbolic text>'
 
 
-def _cslice(k):
+def _cslice(k, n=None):
+    """concrete slice for a (partly) symbolic one.  With the length n of the sliced object known and a unit step, a
+    symbolic bound is first clamped the way slicing clamps it (everything >= n acts like n, everything < -n like 0):
+    one fork per bound instead of one per value, exact for slices"""
     def c(x):
         return x if x is None or type(x) is int else x.__index__()
+
+    def cc(x):
+        if x is None or type(x) is int:
+            return x
+        if x >= n:
+            return n
+        if x < -n:
+            return 0
+        return x.__index__()
+    if n is not None and (k.step is None or (type(k.step) is int and k.step == 1)):
+        return slice(cc(k.start), cc(k.stop), k.step)
     return slice(c(k.start), c(k.stop), c(k.step))
 
 
